@@ -25,60 +25,106 @@ def oid_consts(text):
     return out
 
 
+
+# ------------------------------------------------------------------ tolerant extraction
+# A fact that can no longer be read is *reported* (write() raises TieBroken after everything else was extracted and the
+# generated file was written) but does not stop the run: the last known value below is used, so the model evaluation and
+# above all the oracle still run and can turn the broken tie into a concrete failing input.
+ERRS = []
+LAST_KNOWN = {
+    "sig_algs": [[1, 2, 840, 113549, 1, 1, 11], [1, 2, 840, 113549, 1, 1, 12], [1, 2, 840, 113549, 1, 1, 13], [1, 2, 840, 10045, 4, 3, 2],
+                 [1, 2, 840, 10045, 4, 3, 3], [1, 2, 840, 10045, 4, 3, 4], [1, 2, 840, 113549, 1, 1, 10], [1, 3, 101, 112]],
+    "pss": [1, 2, 840, 113549, 1, 1, 10],
+    "pss_hashes": [[2, 16, 840, 1, 101, 3, 4, 2, 1], [2, 16, 840, 1, 101, 3, 4, 2, 2], [2, 16, 840, 1, 101, 3, 4, 2, 3]],
+    "curves": [[1, 2, 840, 10045, 3, 1, 7], [1, 3, 132, 0, 34], [1, 3, 132, 0, 35]],
+    "min_rsa_bits": 2048, "selfsigned_only_ca": False, "silent_logged": True,
+    "email": [1, 3, 6, 1, 5, 5, 7, 3, 4], "timestamping": [1, 3, 6, 1, 5, 5, 7, 3, 8], "ocsp": [1, 3, 6, 1, 5, 5, 7, 3, 9],
+    "default_ekus": [[1, 3, 6, 1, 5, 5, 7, 3, 4], [1, 3, 6, 1, 5, 5, 7, 3, 36], [1, 3, 6, 1, 5, 5, 7, 3, 8], [1, 3, 6, 1, 5, 5, 7, 3, 9],
+                     [1, 3, 6, 1, 4, 1, 311, 76, 59, 1, 9], [1, 3, 6, 1, 4, 1, 62558, 2, 1]],
+}
+
+
+def fact(pattern, text, what, flags=re.S):
+    m = re.search(pattern, text, flags)
+    if not m:
+        ERRS.append(f"srcfacts: cannot extract {what}")
+    return m
+
+
+def fn_body(text, sig, what):
+    try:
+        return common.fn_body(text, sig, what)
+    except TieBroken as ex:
+        ERRS.append(str(ex))
+        return ""
+
+
+def oids(m, consts, key):
+    """the OID constants named in group 1 of a match, or the last known list"""
+    if not m:
+        return LAST_KNOWN[key]
+    try:
+        return [consts[n] for n in re.findall(r"(\w+_OID)", m.group(1))]
+    except KeyError as ex:
+        ERRS.append(f"srcfacts: unknown OID constant {ex} in {key}")
+        return LAST_KNOWN[key]
+
+
 def profile_facts():
     t = common.strip_tests(common.src(PROFILE))
     consts = oid_consts(t)
-    body = common.fn_body(t, r"pub fn check_certificate_profile\s*\(", "check_certificate_profile")
+    body = fn_body(t, r"pub fn check_certificate_profile\s*\(", "check_certificate_profile")
     f_silent_logged = False
     if re.search(r"fn check_certificate_profile_inner\s*\(", t):
         # the repaired shape (proposed fix C06-silent-profile-errors): a wrapper that logs signingCredential.invalid when the
         # inner check returned Err without logging
         wrapper = body
-        common.fact(r"let logged_before = validation_log\.logged_items\(\)\.len\(\);\s*let result =\s*check_certificate_profile_inner\("
+        fact(r"let logged_before = validation_log\.logged_items\(\)\.len\(\);\s*let result =\s*check_certificate_profile_inner\("
                     r".*?if result\.is_err\(\) && validation_log\.logged_items\(\)\.len\(\) == logged_before \{\s*log_item!\(.*?\)\s*"
                     r"\.validation_status\(SIGNING_CREDENTIAL_INVALID\)\s*\.failure_no_throw\(", wrapper, "wrapper that logs quiet exits")
-        body = common.fn_body(t, r"fn check_certificate_profile_inner\s*\(", "check_certificate_profile_inner")
+        body = fn_body(t, r"fn check_certificate_profile_inner\s*\(", "check_certificate_profile_inner")
         f_silent_logged = True
-    ee = common.fn_body(t, r"pub fn check_end_entity_certificate_profile\s*\(", "check_end_entity_certificate_profile")
+    ee = fn_body(t, r"pub fn check_end_entity_certificate_profile\s*\(", "check_end_entity_certificate_profile")
     f = {"silent_logged": f_silent_logged}
     # accepted signature algorithms
-    m = common.fact(r"if !\(\*cert_alg ==(.*?)\)\s*\{\s*log_item!\(\s*\"\",\s*\"certificate algorithm not supported\"", body, "signature algorithm set")
-    names = re.findall(r"(\w+_OID)", m.group(1))
-    f["sig_algs"] = [consts[n] for n in names]
-    f["pss"] = consts["RSASSA_PSS_OID"]
-    if "RSASSA_PSS_OID" not in names:
-        raise TieBroken("srcfacts: RSASSA-PSS no longer in the accepted signature algorithms")
-    m = common.fact(r"if !\(ha_alg\.algorithm ==(.*?)\)\s*\{\s*log_item!\(\s*\"\",\s*\"certificate hash algorithm not supported\"", body, "PSS hash set")
-    f["pss_hashes"] = [consts[n] for n in re.findall(r"(\w+_OID)", m.group(1))]
-    m = common.fact(r"if !\(named_curve_oid ==(.*?)\)\s*\{\s*log_item!\(\s*\"\",\s*\"certificate unsupported EC curve\"", body, "curve set")
-    f["curves"] = [consts[n] for n in re.findall(r"(\w+_OID)", m.group(1))]
-    m = common.fact(r"if skpi_alg\.algorithm == RSA_OID \|\| skpi_alg\.algorithm == RSASSA_PSS_OID \{.*?if modulus\.bits\(\) < (\d+) \{", body, "RSA modulus minimum")
-    f["min_rsa_bits"] = int(m.group(1))
+    m = fact(r"if !\(\*cert_alg ==(.*?)\)\s*\{\s*log_item!\(\s*\"\",\s*\"certificate algorithm not supported\"", body, "signature algorithm set")
+    f["sig_algs"] = oids(m, consts, "sig_algs")
+    f["pss"] = consts.get("RSASSA_PSS_OID", LAST_KNOWN["pss"])
+    if f["pss"] not in f["sig_algs"]:
+        ERRS.append("srcfacts: RSASSA-PSS no longer in the accepted signature algorithms")
+    m = fact(r"if !\(ha_alg\.algorithm ==(.*?)\)\s*\{\s*log_item!\(\s*\"\",\s*\"certificate hash algorithm not supported\"", body, "PSS hash set")
+    f["pss_hashes"] = oids(m, consts, "pss_hashes")
+    m = fact(r"if !\(named_curve_oid ==(.*?)\)\s*\{\s*log_item!\(\s*\"\",\s*\"certificate unsupported EC curve\"", body, "curve set")
+    f["curves"] = oids(m, consts, "curves")
+    m = fact(r"if skpi_alg\.algorithm == RSA_OID \|\| skpi_alg\.algorithm == RSASSA_PSS_OID \{.*?if modulus\.bits\(\) < (\d+) \{", body, "RSA modulus minimum")
+    f["min_rsa_bits"] = int(m.group(1)) if m else LAST_KNOWN["min_rsa_bits"]
     if not re.search(r"if skpi_alg\.algorithm == EC_PUBLICKEY_OID \{", body):
-        raise TieBroken("srcfacts: EC public key test changed")
+        ERRS.append("srcfacts: EC public key test changed")
     # self-signed rule: does it still require the CA flag?
-    m = common.fact(r"// Disallow self-signed certificates\.\s*if (.*?) \{", body, "self-signed rule")
-    cond = re.sub(r"\s+", " ", m.group(1))
+    m = fact(r"// Disallow self-signed certificates\.\s*if (.*?) \{", body, "self-signed rule")
+    cond = re.sub(r"\s+", " ", m.group(1)) if m else ""
     if cond == "tbscert.is_ca() && tbscert.issuer() == tbscert.subject()":
         f["selfsigned_only_ca"] = True
     elif cond == "tbscert.issuer() == tbscert.subject()":
         f["selfsigned_only_ca"] = False
     else:
-        raise TieBroken(f"srcfacts: self-signed rule changed: {cond}")
+        if m:
+            ERRS.append(f"srcfacts: self-signed rule changed: {cond}")
+        f["selfsigned_only_ca"] = LAST_KNOWN["selfsigned_only_ca"]
     # version
-    common.fact(r"if signcert\.version\(\) != X509Version::V3 \{", body, "version rule")
+    fact(r"if signcert\.version\(\) != X509Version::V3 \{", body, "version rule")
     # validity: time-stamp time if any, else now
-    common.fact(r"if let Some\(tst_info\) = _tst_info_opt \{.*?is_valid_at\(.*?\} else \{.*?SystemTime::now\(\).*?is_valid_at\(", body, "validity rule")
+    fact(r"if let Some\(tst_info\) = _tst_info_opt \{.*?is_valid_at\(.*?\} else \{.*?SystemTime::now\(\).*?is_valid_at\(", body, "validity rule")
     # unique ids
-    common.fact(r"if signcert\.issuer_uid\.is_some\(\) \|\| signcert\.subject_uid\.is_some\(\) \{", body, "unique-id rule")
+    fact(r"if signcert\.issuer_uid\.is_some\(\) \|\| signcert\.subject_uid\.is_some\(\) \{", body, "unique-id rule")
     # EKU rules
-    common.fact(r"if eku\.any \{", body, "anyExtendedKeyUsage rule")
-    common.fact(r"if ctp\.has_allowed_eku\(eku\)\.is_none\(\) \{", body, "EKU acceptance rule")
-    m = common.fact(r"if \(eku\.ocsp_signing && eku\.time_stamping\)\s*\|\| \(\(eku\.ocsp_signing \^ eku\.time_stamping\)\s*&& \(eku\.client_auth\s*\| eku\.code_signing\s*\| eku\.email_protection\s*\| eku\.server_auth\s*\| !eku\.other\.is_empty\(\)\)\)", body, "EKU combination rule")
-    common.fact(r"None => tbscert\.is_ca\(\),", body, "EKU-absent rule")
+    fact(r"if eku\.any \{", body, "anyExtendedKeyUsage rule")
+    fact(r"if ctp\.has_allowed_eku\(eku\)\.is_none\(\) \{", body, "EKU acceptance rule")
+    m = fact(r"if \(eku\.ocsp_signing && eku\.time_stamping\)\s*\|\| \(\(eku\.ocsp_signing \^ eku\.time_stamping\)\s*&& \(eku\.client_auth\s*\| eku\.code_signing\s*\| eku\.email_protection\s*\| eku\.server_auth\s*\| !eku\.other\.is_empty\(\)\)\)", body, "EKU combination rule")
+    fact(r"None => tbscert\.is_ca\(\),", body, "EKU-absent rule")
     # key usage
-    common.fact(r"if ku\.digital_signature\(\) \{\s*if ku\.key_cert_sign\(\) && !tbscert\.is_ca\(\) \{", body, "key-usage rule 1")
-    common.fact(r"if ku\.key_cert_sign\(\) \|\| ku\.non_repudiation\(\) \{\s*key_usage_good = true;", body, "key-usage rule 2")
+    fact(r"if ku\.digital_signature\(\) \{\s*if ku\.key_cert_sign\(\) && !tbscert\.is_ca\(\) \{", body, "key-usage rule 1")
+    fact(r"if ku\.key_cert_sign\(\) \|\| ku\.non_repudiation\(\) \{\s*key_usage_good = true;", body, "key-usage rule 2")
     # the extensions the loop treats as handled
     handled = re.findall(r"ParsedExtension::(\w+)\(_\) => \(\),", body)
     f["handled_exts"] = handled
@@ -86,15 +132,19 @@ def profile_facts():
               "PolicyConstraints", "ExtendedKeyUsage", "CRLDistributionPoints", "InhibitAnyPolicy", "AuthorityInfoAccess",
               "NSCertType", "CRLNumber", "ReasonCode", "InvalidityDate"]
     if handled != expect:
-        raise TieBroken(f"srcfacts: list of handled extensions changed: {handled}")
-    common.fact(r"ski_good = if tbscert\.is_ca\(\) \{ ski_good \} else \{ true \};", body, "SKI rule")
-    common.fact(r"if aki_good && ski_good && key_usage_good && extended_key_usage_good && handled_all_critical \{\s*Ok\(\(\)\)", body, "final conjunction")
-    common.fact(r"check_certificate_profile\(certificate_der, ctp, validation_log, tst_info_opt\)\?;.*?if tbscert\.is_ca\(\) \{", ee, "end-entity CA rule")
+        ERRS.append(f"srcfacts: list of handled extensions changed: {handled}")
+    fact(r"ski_good = if tbscert\.is_ca\(\) \{ ski_good \} else \{ true \};", body, "SKI rule")
+    fact(r"if aki_good && ski_good && key_usage_good && extended_key_usage_good && handled_all_critical \{\s*Ok\(\(\)\)", body, "final conjunction")
+    fact(r"check_certificate_profile\(certificate_der, ctp, validation_log, tst_info_opt\)\?;.*?if tbscert\.is_ca\(\) \{", ee, "end-entity CA rule")
     # silent exits: branches that return Err without logging (the `?` on map_err in the PSS block etc.)
-    pss_block = body[body.index("// Verify RSA_PSS parameters."):body.index("// CHeck curves for SPKI EC algorithms.")]
+    try:
+        pss_block = body[body.index("// Verify RSA_PSS parameters."):body.index("// CHeck curves for SPKI EC algorithms.")]
+    except ValueError:
+        ERRS.append("srcfacts: cannot delimit the RSASSA-PSS parameter block")
+        pss_block = ""
     f["pss_silent_exits"] = len(re.findall(r"(?:map_err\(\|_\w*\| CertificateProfileError::InvalidCertificate\)|ok_or\(CertificateProfileError::InvalidCertificate\))\?", pss_block))
-    if f["pss_silent_exits"] == 0:
-        raise TieBroken("srcfacts: the PSS parameter parser no longer has silent `?` exits (model has PssUnparsable => no code)")
+    if f["pss_silent_exits"] == 0 and pss_block:
+        ERRS.append("srcfacts: the PSS parameter parser no longer has silent `?` exits (model has PssUnparsable)")
     # codes per branch: every log_item description with its status
     f["branches"] = re.findall(r"log_item!\(\s*\"\",\s*\"([^\"]+)\",\s*\"check_certificate_profile\"\s*\)\s*\.validation_status\((\w+)\)", t)
     return f
@@ -104,37 +154,43 @@ def policy_facts():
     t = common.strip_tests(common.src(POLICY))
     consts = oid_consts(t)
     f = {}
-    body = common.fn_body(t, r"pub\(crate\) fn has_allowed_eku", "has_allowed_eku")
+    body = fn_body(t, r"pub\(crate\) fn has_allowed_eku", "has_allowed_eku")
     order = re.findall(r"if eku\.(\w+) \{\s*return Some\((\w+)\.clone\(\)\);", body)
-    if [o[0] for o in order] != ["email_protection", "time_stamping", "ocsp_signing"]:
-        raise TieBroken(f"srcfacts: has_allowed_eku order changed: {order}")
-    f["email"], f["timestamping"], f["ocsp"] = (consts[o[1]] for o in order)
-    common.fact(r"for extra_oid in eku\.other\.iter\(\)\.as_ref\(\) \{.*?if self\.additional_ekus\.contains\(&extra_oid_str\) \{\s*return Some", body, "additional EKU scan")
+    if [o[0] for o in order] != ["email_protection", "time_stamping", "ocsp_signing"] or any(o[1] not in consts for o in order):
+        ERRS.append(f"srcfacts: has_allowed_eku order changed: {order}")
+        f["email"], f["timestamping"], f["ocsp"] = LAST_KNOWN["email"], LAST_KNOWN["timestamping"], LAST_KNOWN["ocsp"]
+    else:
+        f["email"], f["timestamping"], f["ocsp"] = (consts[o[1]] for o in order)
+    fact(r"for extra_oid in eku\.other\.iter\(\)\.as_ref\(\) \{.*?if self\.additional_ekus\.contains\(&extra_oid_str\) \{\s*return Some", body, "additional EKU scan")
     cfg = common.src(EKU_CFG)
     f["default_ekus"] = [[int(x) for x in l.strip().split(".")] for l in cfg.splitlines() if re.fullmatch(r"\s*\d+(\.\d+)+\s*", l)]
-    chk = common.fn_body(t, r"pub fn check_certificate_trust\s*\(", "check_certificate_trust")
-    common.fact(r"if self\.passthrough \{\s*return Ok\(TrustAnchorType::NoCheck\);\s*\}.*?if self\.end_entity_cert_set\.contains\(&cert_hash\) \{\s*return Ok\(TrustAnchorType::EndEntity\);", chk, "passthrough / allow-list order")
-    common.fact(r"impl Default for CertificateTrustPolicy \{.*?passthrough: false,\s*trust_anchors_only: false,.*?this\.add_valid_ekus\(include_bytes!\(\"\./valid_eku_oids\.cfg\"\)\);", t, "default policy")
+    if not f["default_ekus"]:
+        ERRS.append("srcfacts: valid_eku_oids.cfg lists no OID")
+        f["default_ekus"] = LAST_KNOWN["default_ekus"]
+    chk = fn_body(t, r"pub fn check_certificate_trust\s*\(", "check_certificate_trust")
+    fact(r"if self\.passthrough \{\s*return Ok\(TrustAnchorType::NoCheck\);\s*\}.*?if self\.end_entity_cert_set\.contains\(&cert_hash\) \{\s*return Ok\(TrustAnchorType::EndEntity\);", chk, "passthrough / allow-list order")
+    fact(r"impl Default for CertificateTrustPolicy \{.*?passthrough: false,\s*trust_anchors_only: false,.*?this\.add_valid_ekus\(include_bytes!\(\"\./valid_eku_oids\.cfg\"\)\);", t, "default policy")
     o = common.strip_tests(common.src(OPENSSL_TRUST))
-    common.fact(r"if ctp\.trust_anchor_ders\(\)\.count\(\) == 0 && ctp\.user_trust_anchor_ders\(\)\.count\(\) == 0 \{\s*return Err\(CertificateTrustError::CertificateNotTrusted\);", o, "no-anchors short cut")
-    common.fact(r"X509_STRICT.*?PARTIAL_CHAIN.*?if let Some\(st\) = signing_time_epoch \{\s*verify_param\.set_time\(st\);\s*\} else \{\s*verify_param\.set_flags\(X509VerifyFlags::NO_CHECK_TIME\)", o, "verify flags")
-    common.fact(r"Ok\(TrustAnchorType::System\)\s*\} else if !ctp\.trust_anchors_only\(\) \{.*?Ok\(TrustAnchorType::User\)\s*\} else \{\s*Err\(CertificateTrustError::CertificateNotTrusted\)\s*\}\s*\} else \{\s*Err\(CertificateTrustError::CertificateNotTrusted\)", o, "system then user stores")
+    fact(r"if ctp\.trust_anchor_ders\(\)\.count\(\) == 0 && ctp\.user_trust_anchor_ders\(\)\.count\(\) == 0 \{\s*return Err\(CertificateTrustError::CertificateNotTrusted\);", o, "no-anchors short cut")
+    fact(r"X509_STRICT.*?PARTIAL_CHAIN.*?if let Some\(st\) = signing_time_epoch \{\s*verify_param\.set_time\(st\);\s*\} else \{\s*verify_param\.set_flags\(X509VerifyFlags::NO_CHECK_TIME\)", o, "verify flags")
+    fact(r"Ok\(TrustAnchorType::System\)\s*\} else if !ctp\.trust_anchors_only\(\) \{.*?Ok\(TrustAnchorType::User\)\s*\} else \{\s*Err\(CertificateTrustError::CertificateNotTrusted\)\s*\}\s*\} else \{\s*Err\(CertificateTrustError::CertificateNotTrusted\)", o, "system then user stores")
     v = common.strip_tests(common.src(VERIFIER))
-    vt = common.fn_body(v, r"pub\(crate\) fn verify_trust\s*\(", "verify_trust")
-    common.fact(r"Self::VerifyCertificateProfileOnly\(ref _ctp\) => \{\s*return Ok\(TrustAnchorType::NoCheck\);.*?Self::IgnoreProfileAndTrustPolicy => \{\s*return Ok\(TrustAnchorType::NoCheck\);", vt, "variants that skip trust")
-    common.fact(r"Ok\(tat\) => \{.*?\.validation_status\(SIGNING_CREDENTIAL_TRUSTED\)\s*\.success\(validation_log\);.*?Err\(e\) => Err\(.*?\.validation_status\(SIGNING_CREDENTIAL_UNTRUSTED\)\s*\.failure_as_err", vt, "verdict mapping")
-    vs = common.fn_body(v, r"pub fn verify_signature\s*\(", "verify_signature")
-    common.fact(r"self\.verify_profile\(&sign1, tst_info, validation_log\).*?\.ok\(\);.*?self\.verify_trust\(&sign1, tst_info, validation_log\).*?\.ok\(\);", vs, "profile then trust, errors ignored")
+    vt = fn_body(v, r"pub\(crate\) fn verify_trust\s*\(", "verify_trust")
+    fact(r"Self::VerifyCertificateProfileOnly\(ref _ctp\) => \{\s*return Ok\(TrustAnchorType::NoCheck\);.*?Self::IgnoreProfileAndTrustPolicy => \{\s*return Ok\(TrustAnchorType::NoCheck\);", vt, "variants that skip trust")
+    fact(r"Ok\(tat\) => \{.*?\.validation_status\(SIGNING_CREDENTIAL_TRUSTED\)\s*\.success\(validation_log\);.*?Err\(e\) => Err\(.*?\.validation_status\(SIGNING_CREDENTIAL_UNTRUSTED\)\s*\.failure_as_err", vt, "verdict mapping")
+    vs = fn_body(v, r"pub fn verify_signature\s*\(", "verify_signature")
+    fact(r"self\.verify_profile\(&sign1, tst_info, validation_log\).*?\.ok\(\);.*?self\.verify_trust\(&sign1, tst_info, validation_log\).*?\.ok\(\);", vs, "profile then trust, errors ignored")
     c = common.strip_tests(common.src(COSE_VALIDATOR))
-    common.fact(r"let verifier = if cert_check \{\s*if settings\.verify\.verify_trust \{\s*Verifier::VerifyTrustPolicy\(Cow::Borrowed\(ctp\)\)\s*\} else \{\s*Verifier::VerifyCertificateProfileOnly\(Cow::Borrowed\(ctp\)\)\s*\}\s*\} else \{\s*Verifier::IgnoreProfileAndTrustPolicy", c, "verifier selection")
+    fact(r"let verifier = if cert_check \{\s*if settings\.verify\.verify_trust \{\s*Verifier::VerifyTrustPolicy\(Cow::Borrowed\(ctp\)\)\s*\} else \{\s*Verifier::VerifyCertificateProfileOnly\(Cow::Borrowed\(ctp\)\)\s*\}\s*\} else \{\s*Verifier::IgnoreProfileAndTrustPolicy", c, "verifier selection")
     r = common.strip_tests(common.src(RESULTS))
-    tol = common.fn_body(r, r"fn is_tolerated_manifest_failure_code", "is_tolerated_manifest_failure_code")
-    if re.sub(r"\s+", " ", tol) != "{ code == validation_status::SIGNING_CREDENTIAL_UNTRUSTED || code.starts_with(CAWG_X509_STATUS_PREFIX) }":
-        raise TieBroken("srcfacts: is_tolerated_manifest_failure_code changed: " + re.sub(r"\s+", " ", tol))
+    tol = fn_body(r, r"fn is_tolerated_manifest_failure_code", "is_tolerated_manifest_failure_code")
+    if not re.fullmatch(r"\{ code == validation_status::SIGNING_CREDENTIAL_UNTRUSTED \|\| code\.starts_with\(\w+\) \}", re.sub(r"\s+", " ", tol)):
+        ERRS.append("srcfacts: is_tolerated_manifest_failure_code changed: " + re.sub(r"\s+", " ", tol))
     return f
 
 
 def write(ctx=None):
+    del ERRS[:]
     pf = profile_facts()
     qf = policy_facts()
     lst = lambda xs: "[" + "; ".join(coq_oid(x) for x in xs) + "]"
@@ -154,4 +210,6 @@ def write(ctx=None):
     common.write_if_changed(os.path.join(common.COQ, "Generated", "C06_facts.v"), v6)
     if ctx is not None:
         ctx.facts = {"profile": pf, "policy": qf}
+    if ERRS:
+        raise TieBroken("; ".join(ERRS))
     return pf, qf
